@@ -261,6 +261,7 @@ package server
 //@   ensures G_closes(multiplexChannel) >= old(G_closes(multiplexChannel))
 
 //@ func (ws *HttpServer) EndpointHandler$1
+//@   property C01
 //@   property C05, C04, C03
 //@   freevars ws *HttpServer, upstreams Channels
 //@   callsite AcceptConnection#1 (arg1 cert.TlsConfig) require isServerConfig(arg1, &ws.ServerConfig)     :handshake_gets_the_endpoints_own_configuration
